@@ -141,7 +141,7 @@ class C16(Prop):
             "that delay; the generator ends exactly when wait returned True. Non-trivial = >= 3 attempts with a Ready followed by a "
             "failure.")
     assumptions = ("the exit event and the uniform source are harness objects (no real sleeping)",)
-    examples = {"quick": 4000, "thorough": 80000}
+    examples = {"quick": 4000, "thorough": 300000}
 
     def strategy(self, tier):
         num = st.one_of(st.integers(0, 64), st.sampled_from([0, 1, 5, 30, 1000, 10 ** 6]),
